@@ -222,6 +222,16 @@ def write_gzip(path, text):
         f.write(text)
 
 
+def write_gzip_multi(path, text, members=3):
+    """a valid gzip file of several members (what bgzip writes for a file > 64 KiB, or `cat a.gz b.gz`)"""
+    import gzip
+    data = text.encode()
+    k = max(1, len(data) // members)
+    with open(path, "wb") as f:
+        for i in range(0, len(data), k):
+            f.write(gzip.compress(data[i:i + k]))
+
+
 def record_offsets(path):
     """(offsets, raw lines) of a plain or BGZF file, read the way the tool does (tell / readline)"""
     from pysam import libcbgzf
